@@ -142,15 +142,8 @@ func (env *SpecEnv) eval(e SExpr) Val {
 			for i := 0; i < stT.NumFields(); i++ {
 				if stT.Field(i).Name() == sel.Name {
 					ft := ex.fieldType(base.Go, stT.Field(i))
-					fn := sym("fieldaddr_" + ex.w.typeString(base.Go) + "." + sel.Name)
-					if !ex.w.declared[fn] {
-						ex.w.declFun(fn, []*Sort{sRef}, sRef)
-						inv := sym("fieldaddr_inv_" + ex.w.typeString(base.Go) + "." + sel.Name)
-						ex.w.declFun(inv, []*Sort{sRef}, sRef)
-						ex.w.axioms = append(ex.w.axioms, fmt.Sprintf("(forall ((r Ref)) (! (and (= (%s (%s r)) r) (not (= (%s r) nil))) :pattern ((%s r))))", inv, fn, fn, fn))
-					}
 					_ = n
-					return Val{T: sApp(fn, base.T), S: sRef, Go: types.NewPointer(ft)}
+					return Val{T: ex.fieldAddr(base.T, base.Go, sel.Name), S: sRef, Go: types.NewPointer(ft)}
 				}
 			}
 			env.fail("no field %s", sel.Name)
@@ -1102,6 +1095,9 @@ func (env *SpecEnv) tryResolveType(s string) (types.Type, *Sort) {
 func (ex *Exec) loadFieldPure(st *State, base Val, f *types.Var) Val {
 	n, stT, _ := structOf(base.Go)
 	ft := ex.fieldType(base.Go, f)
+	if ex.nestedStruct(ft) {
+		return ex.loadStructPure(st, ex.fieldAddr(base.T, base.Go, f.Name()), ft)
+	}
 	fs := ex.w.sortOf(ft)
 	if arr, ok := types.Unalias(ft).Underlying().(*types.Array); ok {
 		return ex.arrayFieldSlice(base.T, n, stT, f.Name(), arr, ft)
@@ -1204,6 +1200,13 @@ func (env *SpecEnv) evalModifies(c *Contract) []modTarget {
 			}
 			base := env.eval(x.X)
 			n, stT, isPtr := structOf(base.Go)
+			if !isPtr && stT != nil {
+				// x.f.g where f is a struct stored by value inside the heap object x: the sub-object
+				if inner, ok := x.X.(*SSel); ok && ex.nestedStruct(base.Go) {
+					base = env.eval(&SUn{Op: "&", X: inner})
+					n, stT, isPtr = structOf(base.Go)
+				}
+			}
 			if !isPtr && stT != nil {
 				env.fail("modifies target %s is not a heap location", specString(m))
 			}
